@@ -1,3 +1,4 @@
+import os
 """GPAI: abstract interpretation of generated rule functions (DESIGN.md section 2.4).
 
 Abstract state = set of disjuncts (T, consumed, flag, vals, loops, snap):
@@ -390,6 +391,8 @@ class Gpai:
                         ret = {0: "None", 1: "Some"}.get(vals.get(0), "?")
                     ek = (consumed, flag, ret)
                     exits[ek] = (exits.get(ek, frozenset()) | T)
+                    if os.environ.get("GPAI_DEBUG") and os.environ["GPAI_DEBUG"] in relname and not consumed:
+                        print("GPAI_DEBUG", relname, ek, sorted(T), witness(b, dk))
                     if flag0 == 0 and flag == 1:
                         self.report("F1", "%s|returns-with-flag-set" % relname,
                                     "%s: %s, entered outside any ordered choice, can return with in_ordered_choice still set: later mismatches in shared rules "
@@ -442,6 +445,12 @@ class Gpai:
                 return None
             p = o.get("c") or o.get("m")
             if p is not None and not p["p"]:
+                return vals.get(p["l"])
+            return None
+        if r == "ref" and rv.get("bk") == "shared":
+            # a shared reference to a tracked local (`(&result).is_some()`): the referent's known variant is what the callee sees
+            p = rv["p"]
+            if not p["p"]:
                 return vals.get(p["l"])
             return None
         if r == "agg" and rv.get("k") == "adt":
